@@ -32,7 +32,12 @@ type C20Case struct {
 	Prior           bool `json:"run_once_before,omitempty"`
 	PriorSolvedAt   int  `json:"prior_solved_at,omitempty"`
 	PriorFaultTrial int  `json:"prior_fault_trial,omitempty"`
-	ExtraSlots      int  `json:"trials_extra_slots,omitempty"` // pre-sized record longer than the configured number of trials (an experiment value used before with more runs)
+	ExtraSlots      int  `json:"trials_extra_slots,omitempty"`
+	// CtxKind: how the run's context gets its options. "" = a fresh options object attached with neat.NewContext;
+	// "copied" = the options are a by-value copy of an options object that was used before (another population spawned with
+	// it), every setting overwritten, and the context comes from the copy's NeatContext(); "nested" = the context handed to
+	// neat.NewContext already carries other options
+	CtxKind string `json:"context_kind,omitempty"` // pre-sized record longer than the configured number of trials (an experiment value used before with more runs)
 	Parallel    bool       `json:"parallel_executor"`
 	PopSize     int        `json:"pop_size"`
 	Seed        int64      `json:"seed"`
@@ -44,6 +49,7 @@ func GenC20() *rapid.Generator[C20Case] {
 		c := C20Case{Genome: gg.Draw(t, "genome"), Trials: rapid.IntRange(1, 5).Draw(t, "trials"), Generations: rapid.IntRange(1, 8).Draw(t, "generations"),
 			Observer: rapid.IntRange(0, 3).Draw(t, "observer") != 0, PreSized: rapid.Bool().Draw(t, "presized"), Parallel: rapid.IntRange(0, 3).Draw(t, "parallel") == 0,
 			PopSize: rapid.IntRange(3, 8).Draw(t, "pop size"), Seed: int64(rapid.IntRange(0, 1<<30).Draw(t, "seed"))}
+		c.CtxKind = rapid.SampledFrom([]string{"", "", "", "copied", "nested"}).Draw(t, "context kind")
 		if rapid.IntRange(0, 3).Draw(t, "run before") == 0 {
 			c.Prior = true
 			c.PriorSolvedAt = rapid.IntRange(-1, c.Generations-1).Draw(t, "prior solved at")
@@ -262,7 +268,25 @@ func CheckC20(c C20Case, rec *Rec) error {
 	opts := o.Build()
 	ctx, cancel := context.WithCancel(context.Background())
 	defer cancel()
-	ctx = neat.NewContext(ctx, opts)
+	switch c.CtxKind {
+	case "copied":
+		used := defaultOpts()
+		used.PopSize, used.NumRuns, used.NumGenerations = 5, c.Trials+2, c.Generations+3
+		u := used.Build()
+		_, _ = genetics.NewPopulation(xorStart().Build(), u)
+		_ = u.NeatContext()
+		opts = deriveOptions(u, opts)
+		ctx, cancel = context.WithCancel(opts.NeatContext())
+		defer cancel()
+		rec.Class("options copied from a used object, context from the copy")
+	case "nested":
+		outer := defaultOpts()
+		outer.PopSize, outer.NumRuns, outer.NumGenerations = 5, c.Trials+2, c.Generations+3
+		ctx = neat.NewContext(neat.NewContext(ctx, outer.Build()), opts)
+		rec.Class("context that already carried other options")
+	default:
+		ctx = neat.NewContext(ctx, opts)
+	}
 	r := &protoRecorder{c: c, cancel: cancel, pops: map[*genetics.Population]int{}}
 	exp := &experiment.Experiment{Id: 1, Name: "protocol"}
 	if c.PreSized {
